@@ -1,6 +1,7 @@
 ------------------------------ MODULE Judge_Shell ------------------------------
-(* C12, J binding: every record written by TestVerifShellRecord / TestVerifShellTmux (real code, real shells, real  *)
-(* binary) must be explained by FzfShell.  Texts are sequences of symbol names.                                       *)
+(* C12, J binding: every record written by TestVerifShellRecord / TestVerifShellTmux / the execute-silent sessions  *)
+(* of c12.py (real code, real shells, real binary) must be explained by FzfShell.  Texts are sequences of symbol     *)
+(* names.                                                                                                             *)
 EXTENDS FzfShell, Json, IOUtils
 
 TraceLog == ndJsonDeserialize(IOEnv.TRACE)
@@ -14,6 +15,15 @@ JNext == l + Shards <= Len(TraceLog) /\ l' = l + Shards
 StateOf(r) == [items |-> [i \in 1..Len(r.items) |-> [text |-> r.items[i], idx |-> r.ix[i]]],
                cur |-> r.cur, sel |-> r.sel, query |-> r.q, fp |-> r.fp]
 ShellNames(r) == DOMAIN r.argv
+(* runs: the same input under cells of the ($SHELL, --with-shell) matrix.  set / shell / ws = the cell (paths as        *)
+(* element lists); x = the expansion by the executor NewExecutor built under the cell; ran = its own ExecCommand was    *)
+(* used to run the line (exactly when the specification says a POSIX shell evaluates), argv = what that shell passed on *)
+CellEnv(c) == [set |-> c.set, path |-> c.shell]
+ExplainedRun(c, ti, st, w) ==
+    LET env == CellEnv(c)
+    IN /\ c.x = ExpandByI(ti, st, env, c.ws)
+       /\ c.ran = (Evaluator(env, c.ws) = "posix")
+       /\ (c.ran /\ w.status = "OK") => c.argv = w.words
 ExplainedExpand(r) ==
     LET st == StateOf(r)
         ti == TInfo(r.t)
@@ -25,6 +35,17 @@ ExplainedExpand(r) ==
                /\ w.status = "OK" =>                                        \* and where the property speaks:
                     /\ ShEval(x) = w                                        \*   the model reads back the original texts
                     /\ \A n \in ShellNames(r) : r.argv[n] = w.words         \*   and so does every real shell
+               /\ \A k \in 1..Len(r.runs) : ExplainedRun(r.runs[k], ti, st, w)
+
+(* kind = "pexec": the real binary, started with $SHELL / --with-shell of a cell, ran                                  *)
+(*   load:execute-silent(printf '%s\0' {} {q} > FILE)+abort   on one item (--read0) and a query; seen = the          *)
+(* arguments printf received.  Only cells whose program is a POSIX shell are run.                                       *)
+ExplainedPexec(r) ==
+    LET env == CellEnv(r)
+    IN /\ r.err = ""
+       /\ Evaluator(env, r.ws) = "posix"
+       /\ ExecutorReadsBack(env, r.ws, r.item) /\ ExecutorReadsBack(env, r.ws, r.q)
+       /\ r.seen = <<r.item, r.q>>
 
 (* kind = "tmux": the real binary re-launched itself (argv0 + args) through the generated script; seen / seenenv =   *)
 (* what the re-launched process received.  CODE-DERIVED: exactly one argument is inserted after argv0 and some are     *)
@@ -37,7 +58,7 @@ ExplainedTmux(r) ==
           /\ ShEval(TmuxArgStr(all)) = Ok(<<r.seen[1]>> \o SubSeq(r.seen, 3, n + 2))
     /\ \A i \in 1..Len(r.envs) : ShEval(TmuxExportWord(r.envs[i])) = Ok(<<<<"a">> \o r.seenenv[i]>>)
 
-Explained(r) == IF r.kind = "tmux" THEN ExplainedTmux(r) ELSE ExplainedExpand(r)
+Explained(r) == IF r.kind = "tmux" THEN ExplainedTmux(r) ELSE IF r.kind = "pexec" THEN ExplainedPexec(r) ELSE ExplainedExpand(r)
 JInv == Explained(TraceLog[l]) \/ PrintT(<<"MISMATCH", l>>)
 (* how many records the property actually speaks about (evidence only) *)
 JStat == LET r == TraceLog[l] IN
